@@ -13,7 +13,9 @@ RULE = ('Exhaustive enumeration of 7 letters x 7 alterations (-3..+3) x octaves 
         'directly from (name, octave) is exported twice and re-imported.  Importer and exporter objects are also '
         'reused across the whole grid (one shared instance) and compared with fresh instances; in two batch cases one '
         'importer imports the whole grid (forwards, backwards) before any result is inspected: every returned object must '
-        'still hold its own pitch.  Non-trivial = the '
+        'still hold its own pitch; in two history cases the importer is handed a string that is not a spelling before every '
+        'spelling of the grid (the refusal is ignored, the next import must be right) and ONE AgnosticPitch object is '
+        're-assigned to every pitch of the grid and exported.  Non-trivial = the '
         'spelling has an accidental or more than one letter.')
 ASSUMPTIONS = ['kv/pitch.py spelling rule (c = octave 4, C = octave 3, one more letter per octave away) is the reference']
 
@@ -45,9 +47,55 @@ def check_batch(case):
     return Result(nontrivial=True, classes=['batch'], sample={'batch': len(got)}, evals=len(got))
 
 
+JUNK = ['', '#', '--', '##', 'x', 'h#', '4', ' ', 'r', 'c####', '-c-', 'ñ']
+
+
+def check_history(case):
+    """(a) one importer / exporter pair with a past: before every spelling of the grid the importer is handed a string
+    that is not a spelling (empty, accidentals only, unknown letter ... - whatever it answers or raises is ignored); the
+    spelling that follows must still be imported right.  (b) ONE AgnosticPitch object is re-assigned (name, octave - in
+    both orders) to every pitch of the grid and exported twice: the export is the spelling of what the object holds now."""
+    imp, exp = kp.HumdrumPitchImporter(), kp.HumdrumPitchExporter()
+    obj = kp.AgnosticPitch('C', 4)
+    cells = list(grid())
+    if case.get('reverse'):
+        cells.reverse()
+    n = 0
+    for i, c in enumerate(cells):
+        s, expn = M.spell(c['l'], c['alt'], c['o']), name_of(c['l'], c['alt'])
+        junk = JUNK[(i + (3 if case.get('reverse') else 0)) % len(JUNK)]
+        try:
+            imp.import_pitch(junk)
+        except Exception:  # noqa - not a spelling: any refusal is fine
+            pass
+        p = imp.import_pitch(s)
+        n += 1
+        if (p.name, p.octave) != (expn, c['o']):
+            raise Bad('import-after-refused-input', f'import_pitch({s!r}) = ({p.name!r},{p.octave}) on an importer that was handed {junk!r} just before; '
+                                                    f'expected ({expn!r},{c["o"]})')
+        if exp.export_pitch(p) != s:
+            raise Bad('export-after-refused-input', f'{s!r} imported after {junk!r} exports as {exp.export_pitch(p)!r}')
+        if i % 2:
+            obj.name = expn
+            obj.octave = c['o']
+        else:
+            obj.octave = c['o']
+            obj.name = expn
+        e1, e2 = exp.export_pitch(obj), kp.HumdrumPitchExporter().export_pitch(obj)
+        if e1 != s or e2 != s or (obj.name, obj.octave) != (expn, c['o']):
+            raise Bad('export-of-reassigned-object', f'one AgnosticPitch object re-assigned to ({expn!r},{c["o"]}) exports as {e1!r} / {e2!r}, expected {s!r}; '
+                                                     f'object now ({obj.name!r},{obj.octave})')
+        r = imp.import_pitch(e1)
+        if not (r == obj) or (r.name, r.octave) != (expn, c['o']):
+            raise Bad('reimport-of-reassigned-object', f'{e1!r} re-imports as ({r.name!r},{r.octave})')
+    return Result(nontrivial=True, classes=['history'], sample={'history': n, 'refused inputs': JUNK}, evals=2 * n)
+
+
 def check(case):
     if case.get('batch'):
         return check_batch(case)
+    if case.get('history'):
+        return check_history(case)
     l, alt, o = case['l'], case['alt'], case['o']
     s = M.spell(l, alt, o)
     expn = name_of(l, alt)
@@ -93,7 +141,7 @@ def grid():
 def run(ctx):
     _shared.clear()
     ctx.check_all(grid(), check)
-    ctx.check_all([{'batch': True}, {'batch': True, 'reverse': True}], check)
+    ctx.check_all([{'batch': True}, {'batch': True, 'reverse': True}, {'history': True}, {'history': True, 'reverse': True}], check)
     ctx.rec.exhaustive = True
     ctx.rec.notes['grid'] = '7x7x11'
 
